@@ -7,3 +7,5 @@ import Aiorpcx.C10.Props
 import Aiorpcx.C15.Props
 import Aiorpcx.C19.Props
 import Aiorpcx.C07.Props
+import Aiorpcx.C01.Props
+import Aiorpcx.C02.Props
